@@ -50,6 +50,14 @@ func zzC04DenseMergeDense(Ls, Lo int) {
 	zzvAssert("argument-unchanged", zzSameDense(o, &preO))
 	p := zzvMInt("probe", -(1 << 35), 1<<35)
 	zzvAssert("content", zzAbsDense(s, p) == zzAbsDense(&preS, p)+zzAbsDense(&preO, p))
+	// the receiver must not have adopted the argument's memory: a later addition to the receiver
+	// leaves the argument as it was
+	if Lo > 0 {
+		i := o.minIndex + zzvMInt("later", -2, 2)
+		zzvAssume(zzvAnd(i >= -(1<<31), i < 1<<31))
+		s.AddWithCount(i, zzWPos("laterWeight"))
+		zzvAssert("argument-unaffected-by-later-receiver-addition", zzSameDense(o, &preO))
+	}
 }
 
 func ZZ_C04_dense_merge_dense_0_0() { zzC04DenseMergeDense(0, 0) }
